@@ -34,6 +34,8 @@
             KiMtScalar(C,seed)                RFC 7748 5: decodeScalar25519 / decodeScalar448
             KiEcPublicOf(C,d,links)           d * G certified link by link (ECGroup!EcMulLinks): [st, at, pt]
             KiMtPublicOf(C,d)                 d * G on a Montgomery curve, by the RFC 7748 ladder (computed): <<X, Z>>
+            KiWsDecompress(C,x,par,w), KiEdDecode(C,y,sign,w)   the point an encoding that carries half a point stands for (SEC 1 2.3.4,
+                                              RFC 8032 5.1.3), from a claimed root or a certified non-residue (Jacobi symbol)
             KiMtLowOrder(C,u)                 the x-only point u has order 1, 2, 4 or 8 on the curve OR its twist, decided by
                                               three projective doublings ([8]P = O iff Z = 0; both curves and both twists have
                                               cofactor 4 or 8) -- not by a list of values
@@ -217,6 +219,38 @@ KiMtLowOrder(C, u) == KiMtDouble(C, KiMtDouble(C, KiMtDouble(C, <<EcRed(C, u), <
 \* to X25519 / X448 public values that fit the encoding
 KiMtNonCanonicalU(C, u) == ~BnLt(u, C.p)
 KiMtFits(C, u) == BnBitLen(u) <= 8 * C.bytes
+
+\* ------------------------------------------------------------------ point decoding (import formats that carry half a point)
+\* SEC 1 2.3.4: the point with abscissa x whose ordinate has parity par.  w = [y, q1, q2, qs]: a claimed root y with the floor quotient q1 of y^2,
+\* q2 the floor quotient of the cubic (both ignored where reductions are folded); or, when no root exists, y = <<>> and the quotients qs of the
+\* Jacobi algorithm (BigNat!BnJacobi): the cubic is then certified to be a non-residue.  st = "ok" (y), "none" (x is the abscissa of no point),
+\* "range" (x >= p), "witness"
+KiWsDecompress(C, x, par, w) ==
+   IF ~BnIsNat(x) THEN [st |-> "witness", y |-> <<>>]
+   ELSE IF ~EcIsElem(x, C.p) THEN [st |-> "range", y |-> <<>>]
+   ELSE LET r == EcModW(C, BnAdd(BnAdd(BnMul(BnSqr(x), x), BnMul(C.a, x)), C.b), w.q2) IN
+        IF ~r[1] THEN [st |-> "witness", y |-> <<>>]
+        ELSE IF w.y # <<>> THEN
+             (LET yy == EcModW(C, BnSqr(w.y), w.q1) IN
+              IF BnIsNat(w.y) /\ EcIsElem(w.y, C.p) /\ yy[1] /\ yy[2] = r[2] /\ BnAt(w.y, 1) % 2 = par THEN [st |-> "ok", y |-> w.y] ELSE [st |-> "witness", y |-> <<>>])
+        ELSE IF r[2] = <<>> THEN [st |-> "witness", y |-> <<>>]                      \* y = 0: no such point on a curve of odd order
+        ELSE LET j == BnJacobi(r[2], C.p, w.qs) IN IF j[1] /\ j[2] = -1 THEN [st |-> "none", y |-> <<>>] ELSE [st |-> "witness", y |-> <<>>]
+\* RFC 8032 5.1.3 / 5.2.3: the point with ordinate y whose abscissa has low bit sign: x^2 = (y^2 - 1) / (d y^2 - a) (the denominator is never 0:
+\* d is a non-square).  w = [x, qs]: a claimed root, or the Jacobi quotients of (y^2 - 1)(d y^2 - a), a non-residue exactly when the quotient is.
+\* st = "ok" (x), "none", "range" (y >= p), "zero-sign" (x = 0 with the sign bit set: refused by the RFC), "witness"
+KiEdDecode(C, y, sign, w) ==
+   IF ~BnIsNat(y) THEN [st |-> "witness", x |-> <<>>]
+   ELSE IF ~EcIsElem(y, C.p) THEN [st |-> "range", x |-> <<>>]
+   ELSE LET yy == EcMulM(C, y, y)
+            u == EcSubM(yy, <<1>>, C.p)
+            dyy == EcMulM(C, C.d, yy)
+            v == IF C.aneg THEN EcAddM(dyy, <<1>>, C.p) ELSE EcSubM(dyy, <<1>>, C.p)
+        IN IF u = <<>> THEN (IF sign = 0 THEN [st |-> "ok", x |-> <<>>] ELSE [st |-> "zero-sign", x |-> <<>>])
+           ELSE IF w.x # <<>> THEN (IF BnIsNat(w.x) /\ EcIsElem(w.x, C.p) /\ EcMulM(C, EcMulM(C, w.x, w.x), v) = u /\ BnAt(w.x, 1) % 2 = sign
+                                    THEN [st |-> "ok", x |-> w.x] ELSE [st |-> "witness", x |-> <<>>])
+           ELSE LET j == BnJacobi(EcMulM(C, u, v), C.p, w.qs) IN IF j[1] /\ j[2] = -1 THEN [st |-> "none", x |-> <<>>] ELSE [st |-> "witness", x |-> <<>>]
+\* O5: the library decodes y = 1 with the sign bit set as the neutral element, and ignores the seven unused bits of the last octet of an Ed448 encoding
+KiEdNonCanonicalAccepted(C, y, sign, junk) == (y = <<1>> /\ sign = 1) \/ (C.name = "Ed448" /\ junk # 0)
 
 \* ================================================================== self-test
 \* textbook key: p = 61, q = 53, n = 3233, lcm(60, 52) = 780, e = 17, d = 413 (17 * 413 = 7021 = 9 * 780 + 1), u = 61^-1 mod 53 = 20
